@@ -8,6 +8,7 @@ and a complete enumeration of the mutation sequences of a structured case space;
 ASan/UBSan + a step budget + the parse/serialize round trip of the real classes."""
 import concurrent.futures
 import random
+import xml.dom.minidom
 
 import codec_common as cc
 import vf
@@ -15,28 +16,77 @@ import vf
 LEVEL = "exploration"
 
 
-def _jobs(chk, seeds, plans1, plans2, plans3, quick):
+def _known_namespace_jobs(seeds, quick):
+    """AddUnknownChild: for every distinct parent element (namespace, name) of the corpus, at its first
+    occurrence, a new first child with an unknown name in every namespace that a child of such an element
+    (or the element itself) has anywhere in the corpus -- the namespaces its parser evidently branches on.
+    Thorough tier: in addition every namespace of the whole corpus under every distinct root element."""
+    first = {}
+    known = {}
+    roots = {}
+    universe = set()
+
+    def walk(e, si, path):
+        sig = (e.namespaceURI or "", e.localName)
+        first.setdefault(sig, (si, path))
+        k = known.setdefault(sig, set())
+        k.add(e.namespaceURI or "")
+        universe.add(e.namespaceURI or "")
+        n = 0
+        for c in e.childNodes:
+            if c.nodeType == 1:
+                n += 1
+                k.add(c.namespaceURI or "")
+                walk(c, si, path + [n])
+
+    for si, sd in enumerate(seeds):
+        try:
+            d = xml.dom.minidom.parseString(
+                "<r xmlns:stream='http://etherx.jabber.org/streams' xmlns:db='jabber:server:dialback'>" + sd["xml"] + "</r>")
+        except Exception:
+            continue
+        root = next(c for c in d.documentElement.childNodes if c.nodeType == 1)
+        roots.setdefault((root.namespaceURI or "", root.localName), si)
+        walk(root, si, [])
+    jobs = []
+    for sig, (si, path) in sorted(first.items()):
+        for ns in sorted(known[sig]):
+            jobs.append({"k": "mut", "id": f"u{len(jobs)}", "seed": si, "off": 0, "anchor": 0, "client": True, "deep": False,
+                         "steps": [{"op": "AddUnknownChild", "abs": True, "p": path, "ns": ns}]})
+    if not quick:
+        for sig, si in sorted(roots.items()):
+            for ns in sorted(universe - known[sig]):
+                jobs.append({"k": "mut", "id": f"u{len(jobs)}", "seed": si, "off": 0, "anchor": 0, "client": True, "deep": False,
+                             "steps": [{"op": "AddUnknownChild", "abs": True, "p": [], "ns": ns}]})
+    return jobs, {"parent_signatures": len(first), "namespaces": len(universe), "root_signatures": len(roots)}
+
+
+def _jobs(chk, seeds, plans2, plans3, quick):
+    """seed jobs, position jobs (every one-step move at every position of every seed) and multi-step
+    plans of the abstract tree anchored at a random element of the seed."""
     rnd = random.Random(chk.seed)
     jobs = []
     n = 0
 
-    def add(si, plan, deep=False):
+    def add(si, plan):
         nonlocal n
         n += 1
-        jobs.append({"k": "mut", "id": f"m{n}", "seed": si, "off": rnd.randrange(0, 1 << 16), "steps": plan["steps"],
-                     "client": True, "deep": deep})
+        jobs.append({"k": "mut", "id": f"m{n}", "seed": si, "off": rnd.randrange(0, 1 << 16), "anchor": rnd.randrange(0, 1 << 16),
+                     "steps": plan["steps"], "client": True, "deep": False})
 
     for si in range(len(seeds)):
         jobs.append({"k": "seed", "id": f"s{si}", "seed": si, "client": True})
-    if quick:
-        per1, per2, per3 = 3, 2, 0
-    else:
-        per1, per2, per3 = len(plans1), 8, 6
+    # every position of every seed: DeleteChild, Rename, DropAttr, NegativeAttr, NonNumericAttr, UnknownEnum in both
+    # tiers.  Second-line moves (DuplicateChild, SwapSiblings, MoveUnderSibling, Renamespace, Nest 3 levels, EmptyAttr)
+    # and heavy moves (HugeAttr, Nest 8 and 24 levels: 20-100x the cost of a light document) at every position in the
+    # thorough tier; in the quick tier at every 3rd / 32nd position (rotating with VERIF_SEED).
     for si in range(len(seeds)):
-        # every single mutation is applied to every seed in the thorough tier; in the quick tier the
-        # 49 single mutations rotate over the seeds (each is applied to ~ len(seeds)*5/49 seeds)
-        for k in range(per1):
-            add(si, plans1[(si * per1 + k) % len(plans1)], deep=(k == 0))
+        jobs.append({"k": "pos", "id": f"w{si}", "seed": si, "client": True, "heavyEvery": 32 if quick else 1, "secondEvery": 3 if quick else 1,
+                     "rot": chk.seed % 48})
+    per2, per3 = (1, 0) if quick else (8, 6)
+    for si in range(len(seeds)):
+        if quick and (si + chk.seed) % 2:
+            continue   # quick tier: one two-step plan for every second seed
         for _ in range(per2):
             add(si, plans2[rnd.randrange(len(plans2))])
         for _ in range(per3 if plans3 else 0):
@@ -55,7 +105,7 @@ def run(chk, replay=None):
 
     with concurrent.futures.ThreadPoolExecutor(max_workers=1) as bg:
         # 1. design level: every mutation sequence up to MaxMut keeps the tree well-formed
-        mc_f = bg.submit(vf.tlc_mc, "XmlMutate.tla", "XmlMutate.cfg", cc.PROCS)
+        mc_f = bg.submit(vf.tlc_mc, "XmlMutate.tla", "XmlMutate.cfg", cc.TLC_WORKERS)
         # 2. plans: all single mutations, all pairs, triples (all of them in the thorough tier)
         if replay:
             jobs = [j for j in vf.read_ndjson(replay) if "k" in j]
@@ -70,11 +120,16 @@ def run(chk, replay=None):
                 p3, st3 = vf.tlc_gen("XmlMutateGen.tla", "XmlMutateGen3.cfg", keep_prefixes=True, timeout=1500)
             p3 = [p for p in p3 if len(p["steps"]) == 3]
             gen = {"single": st1, "pairs": st2, "triples": st3}
-            jobs = _jobs(chk, seeds, p1, p2, p3, quick)
+            jobs = _jobs(chk, seeds, p2, p3, quick)
+            ujobs, ustats = _known_namespace_jobs(seeds, quick)
+            jobs += ujobs
+            chk.cov["known_namespace_children"] = dict(ustats, documents=len(ujobs))
         chk.cov["generation"] = gen
         vf.write_ndjson(chk.path("jobs.ndjson"), jobs)
         # 3. the real parsers (ASan/UBSan build), sharded; every job is announced before it runs
-        paths, lines, crashes = cc.run_jobs(chk, "c02", jobs, seeds_path, alarm=90)
+        # a parser that does not return within the alarm ends the process; the hang is confirmed on the
+        # document alone with three times the budget before it is reported (C02:hang:<class>:<seed>:<plan>)
+        paths, lines, crashes = cc.run_jobs(chk, "c02", jobs, seeds_path, alarm=10 if quick else 30)
         chk.mc(mc_f.result(), "XmlMutate.cfg")
 
     # 4. trace validation: the monitor of XmlMutateTrace evaluates the C02 predicates per document
@@ -84,6 +139,14 @@ def run(chk, replay=None):
     docs = [o for o in lines if o.get("e") in ("Doc", "Seed")]
     by_case = {o["case"]: o for o in docs}
     job_by_id = {j["id"]: j for j in jobs}
+
+    def job_of(case):
+        jid, _, k = case.partition(".")
+        return dict(job_by_id[jid], **{"from": int(k), "upto": int(k) + 1}) if k else job_by_id[jid]
+
+    posl = [o for o in lines if o.get("e") == "Positions" and not o.get("from")]
+    onestep = [o for o in docs if o["e"] == "Doc" and len(o.get("steps", [])) == 1 and o["steps"][0].get("abs")
+               and o["steps"][0]["op"] != "AddUnknownChild"]
     muts = [o for o in docs if o["e"] == "Doc"]
     nontrivial = {o["h"] for o in muts if o.get("wfdoc") and any(o.get("applied", [])) and o.get("runs", 0) > 0 and "h" in o}
     ops = {}
@@ -100,6 +163,18 @@ def run(chk, replay=None):
         "documents_fed_to_connected_client": sum(1 for o in docs if o.get("sent", -1) >= 0),
         "client_reactions": sum(1 for o in docs if o.get("sent", 0) > 0),
         "mutated_documents": len(muts),
+        "seed_elements": sum(o["elements"] for o in posl),
+        "seed_positions": sum(o["positions"] for o in posl),
+        "one_step_documents_planned": sum(o["plans"] for o in posl),
+        "one_step_documents_run": len(onestep),
+        "one_step_every_position": "DeleteChild Rename at every element; "
+                                   "DropAttr at every attribute and character-data position, NegativeAttr/NonNumericAttr at every "
+                                   "numeric one (NonNumericAttr at every character-data position), UnknownEnum at every word-like one; "
+                                   + ("sampled: DuplicateChild SwapSiblings MoveUnderSibling Renamespace Nest(3) EmptyAttr at every 3rd position, "
+                                      "HugeAttr Nest(8) Nest(24) at every 32nd"
+                                      if quick else "DuplicateChild SwapSiblings MoveUnderSibling Renamespace Nest(3) Nest(8) Nest(24) at every element, "
+                                                    "EmptyAttr HugeAttr at every attribute/text"),
+        "multi_step_documents": sum(1 for o in muts if len(o.get("steps", [])) > 1),
         "mutation_not_applicable": sum(1 for o in muts if not any(o.get("applied", []))),
         "mutations_applied_per_op": {k: {"planned": v[0], "applied": v[1]} for k, v in sorted(ops.items())},
         "registry_classes": len(reg["registry"]),
@@ -110,14 +185,16 @@ def run(chk, replay=None):
         "harness_processes": cc.PROCS,
         "exhaustive": False,
         "rule": ("seeds = every XML literal of /repo/tests (harvested now) that is one well-formed element; documents = each seed "
-                 "unmutated + mutation plans from TLC's enumeration of spec/XmlMutate.tla (all 1-step plans; 2- and 3-step plans "
-                 "sampled with VERIF_SEED from the complete enumeration) mapped onto the seed; every registered parser whose type "
+                 "unmutated + every enabled one-step move of spec/XmlMutate.tla's Moves() on the concrete seed (every element, "
+                 "attribute and character-data position; heavy moves sampled in the quick tier) + 2- and 3-step plans sampled with "
+                 "VERIF_SEED from TLC's complete enumeration on the abstract tree, anchored at a random element of the seed; every registered parser whose type "
                  "check admits the element (unchecked parsers: all) runs doc->parse->toXml->parse->toXml under ASan/UBSan with a "
                  "per-document alarm, root element also fed to a connected in-memory client; non-trivial = distinct mutated "
                  "document (hash) on which a mutation applied and at least one parser ran"),
     })
-    for o in (muts[:2] + muts[-2:]):
-        chk.sample({"seed": o["seed"], "steps": o["steps"], "applied": o["applied"], "parsers_run": o["runs"], "bytes": o.get("size")})
+    deepest = sorted(onestep, key=lambda o: -len(o["steps"][0].get("p", [])))[:2]
+    for o in (deepest + muts[-2:]):
+        chk.sample({"seed": o["seed"], "plan": o.get("plan"), "steps": o["steps"], "applied": o["applied"], "parsers_run": o["runs"], "bytes": o.get("size")})
 
     # 5. violations: monitor findings, grouped by an address-free signature
     seen = {}
@@ -137,14 +214,22 @@ def run(chk, replay=None):
         classes = sorted({x[1]["c"] for x in occ})
         what = (f"{b['k']} at {b.get('where', '')} in {', '.join(classes[:6])}{' ...' if len(classes) > 6 else ''} ({len(occ)} parser runs), first: seed {o['seed']} ({src}) steps "
                 f"{[st['op'] for st in o.get('steps', [])]} element {b['el']}: X1={cc.short(b['x1'])} X2={cc.short(b['x2'])}")
-        chk.violation(sig, what, [job_by_id[o["case"]]] + [o])
+        chk.violation(sig, what, [job_of(o["case"])] + [o])
         if len(chk.violations) >= 25:
             break
     for c in crashes:
-        sig = cc.crash_signature("C02", c)
         j = c["job"]
-        chk.violation(sig, f"{c['kind']} while handing a well-formed element to the parsers/client: {c['report'] or c['stderr_tail'][-300:]} "
-                           f"(job {j.get('id')}, seed #{j.get('seed')}, steps {[st['op'] for st in j.get('steps', [])]})", [j])
+        if not c.get("seed_src") and isinstance(j.get("seed"), int) and j["seed"] < len(seeds):
+            c["seed_src"] = seeds[j["seed"]]["src"]
+        sig = cc.crash_signature("C02", c)
+        if c["kind"] == "hang":
+            what = (f"{c['cls']} does not terminate on a well-formed element: test literal {c['seed_src']} after {c['plan'] or [st['op'] for st in j.get('steps', [])]}: "
+                    f"{c['stderr_tail']}")
+        else:
+            what = (f"{c['kind']} while handing a well-formed element to the parsers/client: {c['report'] or c['stderr_tail'][-300:]} "
+                    f"(document {c.get('case') or j.get('id')}, seed #{j.get('seed')} {c.get('seed_src', '')}, "
+                    f"{c.get('plan') or by_case.get(c.get('case'), {}).get('plan') or [st['op'] for st in j.get('steps', [])]})")
+        chk.violation(sig, what, [j])
     # 6. no dependence on uninitialised memory: the seeds once more with another heap fill pattern
     det = cc.determinism(chk, "c02det", [j for j in jobs if j["k"] == "seed"], seeds_path, lines) if not replay else []
     for dv in det:
@@ -154,5 +239,6 @@ def run(chk, replay=None):
     chk.assumptions += [
         "elements up to a size bound: seeds from the test suite, <= 3 mutations, attribute values <= 70000 characters, nesting <= 24 extra levels per Nest, document <= 300000 characters",
         "Qt's own XML reader/writer and DOM are trusted; a sanitizer report without a frame in /repo/src is still reported",
-        "resource use is bounded by a per-document alarm and an RSS limit, not measured precisely",
+        "termination: a parser/client that does not return within the per-document alarm (10 s quick, 30 s thorough; normal documents take "
+        "milliseconds) and again not within three times that when run alone on the document is reported as a hang; memory by ASan's RSS limit",
     ]
